@@ -146,6 +146,13 @@ KERNELS = [
     dict(name="standard_crossover", file="utils/crossovers.py", func="standard_crossover",
          params=[("individs", "Tree2"), ("fitness", "Arr"), ("rank", "Arr"), ("max_level", "Int")], ret="Tree", streams=True,
          tree_calls={"subtree": "Tree_subtree", "concat": "Tree_concat", "get_max_level": "Tree_get_max_level"}),
+    # ---- Tree.get_common_region for ONE other tree (`other_trees` is a one-element list: `len(other_trees) == 1` holds by the
+    #      declared shape, the k-tree branch is not part of this kernel) and the GP crossover one_point_crossoverGP
+    dict(name="Tree_get_common_region", file="base/_tree.py", cls="Tree", func="get_common_region", params=[("other_trees", "Tree1")], ret="Mat",
+         self_tree=True, uses=["common_region_two_trees"]),
+    dict(name="one_point_crossoverGP", file="utils/crossovers.py", func="one_point_crossoverGP",
+         params=[("individs", "Tree2"), ("fitness", "Arr"), ("rank", "Arr"), ("max_level", "Int")], ret="Tree", streams=True,
+         tree_calls={"subtree": "Tree_subtree", "concat": "Tree_concat", "get_common_region": "Tree_get_common_region"}),
     # ---- the donor strategies of differential evolution: straight-line vector arithmetic (translated over the ring Int: the
     #      float operations are read as ring operations) on rows chosen by random_sample, which is a parameter taking
     #      the call's actual arguments and the call's ordinal: `sample range_size quantity replace k`
@@ -172,7 +179,7 @@ LTY = {"Int": "Int", "Arr": "List Int", "Bool": "Bool", "Mat": "List (List Int)"
        "ArrSelf": "List (List Int)"}
 TREE_ATTR = {"_nodes": "nodes", "_n_args": "nargs"}
 DEFAULT = {"Int": "0", "Arr": "[]", "Bool": "false", "Mat": "[]"}
-RESERVED = ("sampler", "wsampler", "end", "at", "from", "to", "in", "do", "then", "fun", "match", "with", "open", "by", "s", "us", "ns", "fuel", "rolls", "max", "min", "hi0", "samples", "self", "self_nodes", "self_nargs", "log", "stops", "kb", "value_ext", "tree")
+RESERVED = ("_", "sampler", "wsampler", "end", "at", "from", "to", "in", "do", "then", "fun", "match", "with", "open", "by", "s", "us", "ns", "fuel", "rolls", "max", "min", "hi0", "samples", "self", "self_nodes", "self_nargs", "log", "stops", "kb", "value_ext", "tree")
 
 
 class NotRecognised(Exception):
@@ -295,7 +302,7 @@ class Tr:
             if isinstance(f, ast.Name) and f.id == "Tree":
                 return "Tree"
             if self.is_tree_call(e):
-                return {"get_args_id": "Arr", "get_max_level": "Int"}.get(f.attr, "Tree")
+                return {"get_args_id": "Arr", "get_max_level": "Int", "get_common_region": "Mat"}.get(f.attr, "Tree")
             if isinstance(f, ast.Attribute) and isinstance(f.value, ast.Name) and f.value.id == "self" and f.attr in self.tree_methods:
                 return KERNEL_BY_NAME[self.tree_methods[f.attr]]["ret"]
             if is_np(f, "empty", "arange", "zeros", "empty_like", "array", "cumsum"):
@@ -334,6 +341,10 @@ class Tr:
                         if self.is_mask_expr(st.value):
                             self.masks.add(t.id)
                         self.setlocal(t.id, self.ty(st.value))
+                    elif isinstance(t, ast.Tuple) and self.is_tree_call(st.value, "get_common_region"):
+                        for el in t.elts:
+                            if isinstance(el, ast.Name):
+                                self.setlocal(el.id, "Mat")
                     elif isinstance(t, ast.Tuple):
                         for el in t.elts:
                             if isinstance(el, ast.Name):
@@ -355,6 +366,8 @@ class Tr:
                     raise NotRecognised("while-else")
             elif isinstance(st, ast.If) and ast.unparse(st.test) in self.opaque_if:
                 self.setlocal(self.opaque_if[ast.unparse(st.test)][0], "Arr")
+            elif isinstance(st, ast.If) and self.static_true(st.test):
+                self.collect(st.body)
             elif isinstance(st, ast.If):
                 self.collect(st.body)
                 self.collect(st.orelse)
@@ -515,6 +528,8 @@ class Tr:
 
     def tree_attr(self, e):
         """`X._nodes` / `X._n_args` of a Tree value X (self, a parameter or a local) -> Lean expression, else None"""
+        if isinstance(e, ast.Attribute) and e.attr in TREE_ATTR and self.tree2(e.value) is not None:
+            return f"{self.tree2(e.value)}_{TREE_ATTR[e.attr]}"
         if isinstance(e, ast.Attribute) and e.attr in TREE_ATTR and isinstance(e.value, ast.Name):
             x, a = e.value.id, TREE_ATTR[e.attr]
             if x == "self" and self.self_tree:
@@ -530,7 +545,17 @@ class Tr:
         if isinstance(e, ast.Subscript) and isinstance(e.value, ast.Name) and self.params.get(e.value.id) == "Tree2" \
                 and isinstance(e.slice, ast.Constant) and e.slice.value in (0, 1):
             return f"{self.id(e.value.id)}_{e.slice.value}"
+        if isinstance(e, ast.Subscript) and isinstance(e.value, ast.Name) and self.params.get(e.value.id) == "Tree1" \
+                and isinstance(e.slice, ast.Constant) and e.slice.value == 0:
+            return f"{self.id(e.value.id)}_0"
         return None
+
+    def static_true(self, test):
+        """`len(P) == 1` for a parameter P declared as a one-element list of trees"""
+        return (isinstance(test, ast.Compare) and len(test.ops) == 1 and isinstance(test.ops[0], ast.Eq)
+                and isinstance(test.left, ast.Call) and callname(test.left.func) == "len" and len(test.left.args) == 1
+                and isinstance(test.left.args[0], ast.Name) and self.params.get(test.left.args[0].id) == "Tree1"
+                and isinstance(test.comparators[0], ast.Constant) and test.comparators[0].value == 1)
 
     def is_tree_value(self, e):
         if self.tree2(e) is not None:
@@ -825,6 +850,8 @@ class Tr:
                 else:
                     acc = self.oob(v, env)
             return acc
+        if self.tree2(e) is not None:
+            return "false"          # a component of a parameter declared as a list of that many trees
         if isinstance(e, ast.Subscript) and is_np(e.value, "r_"):
             parts = e.slice.elts if isinstance(e.slice, ast.Tuple) else [e.slice]
             return bor(*[self.oob(x, env) for x in parts])
@@ -969,6 +996,17 @@ class Tr:
                 L.append(f"{{ s with err := s.err || decide ((s.{tmpn}).length ≠ {len(t.elts)}) }}")
                 L.append("{ s with " + ", ".join(f"{self.id(el.id)} := Imp.geti s.{tmpn} ({k} : Int)" for k, el in enumerate(t.elts)) + " }")
                 return L
+            if isinstance(t, ast.Tuple) and len(t.elts) == 2 and all(isinstance(el, ast.Name) for el in t.elts) and self.is_tree_call(st.value, "get_common_region"):
+                # common, border = X.get_common_region([Y]): the callee returns the four index arrays [c1, c2, b1, b2]
+                c = st.value
+                if len(c.args) != 1 or not isinstance(c.args[0], ast.List) or len(c.args[0].elts) != 1 or not self.is_tree_value(c.args[0].elts[0]):
+                    raise NotRecognised(f"argument of {ast.unparse(c)}")
+                xn, xa = self.tree_pair(c.func.value, {})
+                yn, ya = self.tree_pair(c.args[0].elts[0], {})
+                tm = self.tmp("Mat")
+                L.append(f"(match {self.tree_calls['get_common_region']} {xn} {xa} {yn} {ya} with | some v => {{ s with {tm} := v, err := s.err || decide (v.length ≠ 4) }} | none => {{ s with err := true }})")
+                L.append(f"{{ s with {self.id(t.elts[0].id)} := s.{tm}.take 2, {self.id(t.elts[1].id)} := s.{tm}.drop 2 }}")
+                return L
             if isinstance(t, ast.Tuple) and all(isinstance(el, ast.Name) for el in t.elts) and isinstance(st.value, ast.Call) and self._safe_ty(st.value) == "Arr":
                 # a, b, ... = <array>: the array must have exactly that many elements
                 env = self.pre([st.value], L)
@@ -1052,6 +1090,10 @@ class Tr:
                                           for b in (st.body, st.orelse) for x in b for n_ in ast.walk(x)):
                 raise NotRecognised("the opaque branches do more than compute " + var)
             L.append(f"{{ s with {self.id(var)} := {par} }}")
+            return L
+        if isinstance(st, ast.If) and self.static_true(st.test):
+            for x in st.body:
+                L += self.stmt(x, ind)
             return L
         if isinstance(st, ast.If):
             env = self.pre([st.test], L)
@@ -1210,6 +1252,7 @@ class Tr:
         fields = "".join(f"  {n} : {LTY[t]} := {DEFAULT[t]}\n" for n, t in sorted(allf2.items()))
         params = " ".join((f"({self.id(n)}_nodes {self.id(n)}_nargs : List Int)" if t == "Tree" else
                            f"({self.id(n)}_0_nodes {self.id(n)}_0_nargs {self.id(n)}_1_nodes {self.id(n)}_1_nargs : List Int)" if t == "Tree2" else
+                           f"({self.id(n)}_0_nodes {self.id(n)}_0_nargs : List Int)" if t == "Tree1" else
                            f"({self.id(n)} : {LTY[t]})") for n, t in cfg["params"] if t != "Opaque")
         if self.self_tree:
             params = "(self_nodes self_nargs : List Int) " + params
